@@ -349,18 +349,18 @@ class Controller:
             self.log.append(("request-raised", repr(e)))
 
     # ---------------------------------------------------------------- plan and commands
-    def plan(self):
+    def plan(self, prefix="plan"):
         k = 0
         resp = None
         thrown = None
         try:
             while True:
                 if thrown is not None:
-                    d = self.next_decision(["plan: on throw"])
+                    d = self.next_decision([prefix + ": on throw"])
                     if d is None or d[1] == "reraise":
                         raise thrown
                     thrown = None
-                d = self.next_decision(["plan#"])
+                d = self.next_decision([prefix + "#"])
                 choice = d[1] if d else "return"
                 if choice == "return":
                     self.plan_done = "returned"
@@ -497,6 +497,22 @@ def run_native(decisions, msgs):
         ctl.submit((lambda: RE.abort("because")) if name == "abort" else getattr(RE, name))
         r = ctl.schedule()
         record(name, r)
+    # a second call on the same engine (scenarios with `second_call`): its plan takes the decisions labelled plan2#k
+    if str(RE.state) == "idle" and any(lab.startswith("plan2") for lab, _ in ctl.decisions[ctl.pos:]):
+        ctl.plan_done, ctl.doomed = None, None
+        ctl.section_nr = False            # a new call starts resumable
+        ctl.cleanup_entered = False
+        plan2 = ctl.plan(prefix="plan2")
+        ctl.submit(lambda: RE(plan2))
+        r = ctl.schedule()
+        record("__call__", r)
+        out["calls"][-1]["second"] = True
+        while r[0] != "stuck" and str(RE.state) == "paused":
+            d = ctl.next_decision(["post-pause decision"])
+            name = d[1] if d else "abort"
+            ctl.submit((lambda: RE.abort("because")) if name == "abort" else getattr(RE, name))
+            r = ctl.schedule()
+            record(name, r)
     out["diverged"] = ctl.diverged
     out["trace"] = ctl.trace
     out["doomed_bad"] = ctl.doomed_bad
@@ -537,7 +553,7 @@ def _violations(obligation, res):
             if c["call"] in ("__call__", "resume") and c["outcome"] == "ok" and not (st == "idle" and c["plan"] == "returned"):
                 bad.append(f"{c['call']} returned normally with state {st!r}, plan {c['plan']}")
     tr = res.get("trace", [])
-    quiet = not any(x[0] == "request" and x[1] not in ("pause_defer",) for x in res["log"]) and \
+    quiet = not any(x[0] == "request" and x[1] in ("pause", "abort", "stop", "halt") for x in res["log"]) and \
         not any(c["call"] in ("abort", "stop", "halt") for c in res["calls"])
     if tag.startswith("ensures[the value sent into the plan at a yield"):
         for x in tr:
@@ -570,6 +586,17 @@ def _violations(obligation, res):
                 due = False
             if x[0] == "yield" and x[1] == "checkpoint" and x[2]:
                 due = True
+    elif tag.startswith("ensures[a deferred pause does not take effect before a checkpoint is processed"):
+        pending, last = False, None
+        for x in tr:
+            if x[0] == "yield":
+                pending = pending or x[2]
+            if x[0] == "msg":
+                last = x[1]
+            if x[0] == "state" and x[1] == "pausing":
+                if pending and quiet and last != "checkpoint":
+                    bad.append(f"with only a deferred pause requested the engine started pausing at a {last!r} message, not at a checkpoint")
+                pending = False
     elif tag.startswith("ensures[resuming from a deferred pause replays nothing"):
         due = from_deferred = False
         for x in tr:
